@@ -284,7 +284,23 @@ def step (st : DState) (line : String) : DState × List String :=
           | .ok l => " ".intercalate (l.map showVal)
           | .error e => s!"aerr {e}"
         | "names" => " ".intercalate (h.indicators.map (·.1))
+        -- `Hexital.timeframes`: {str(manager.timeframe)} – the default manager shows the Hexital's own timeframe (or None)
+        | "timeframes" =>
+          let names := h.managers.map fun (k, _) => if k == defaultKey then h.tfName.getD "None" else k
+          " ".intercalate (names.mergeSort (fun a b => decide (a ≤ b))).eraseDups
+        -- `Hexital.get_candles()`: manager keys in insertion order with the number of candles each holds
+        | "getcandles" => " ".intercalate (h.managers.map fun (k, m) => s!"{k}:{m.candles.length}")
         | _ => "bad-acc"
+      if what == "candles" then
+        -- `Hexital.candles(timeframe)`: that manager's candles if it exists, else the default manager's
+        let key := (param ps "tf").getD ""
+        let m := match dlookup key h.managers with
+          | some m => some m
+          | none => dlookup defaultKey h.managers
+        match m with
+        | some m => (st, snapLines m.candles)
+        | none => (st, ["aerr keyError"])
+      else
       (st, [out])
   | "settings" :: rest =>
     let (ps, _) := splitParams rest
